@@ -20,6 +20,7 @@ use vcore::{Cfg, Check, Cx, Finding, Meta, Tier, Value, Violation, json};
 mod disk;
 mod enumerate;
 mod handtable;
+mod members;
 mod model;
 mod modnames;
 mod reference;
@@ -810,6 +811,7 @@ struct C13;
 
 fn env_of(u: &Unit) -> Env {
     match u {
+        Unit::Members => Env::new(0, 0, false),
         Unit::Lookup { tree, placement } => Env::new(*tree, *placement, true),
         Unit::Probes { tree, placement, .. } | Unit::TypePos { tree, placement, .. } | Unit::ModNames { tree, placement } => {
             Env::new(*tree, *placement, false)
@@ -832,6 +834,7 @@ impl Check for C13 {
             Unit::Probes { site, kind, group, impkind, .. } => run_probes(&env, site, kind, group, impkind, cx),
             Unit::ModNames { .. } => modnames::run(&env, cx),
             Unit::TypePos { site, .. } => typos::run(&env, site, cx),
+            Unit::Members => members::run(cx),
         }
     }
     fn describe(&self, cfg: &Cfg, unit: usize, sub: u64) -> Value {
@@ -853,6 +856,7 @@ impl Check for C13 {
             }
             Unit::ModNames { .. } => modnames::describe(&env, sub),
             Unit::TypePos { site, .. } => typos::describe(&env, site, sub),
+            Unit::Members => members::describe(sub as usize),
             Unit::Probes { site, kind, group, impkind, .. } => {
                 let progs = enumerate::probes(&env.world, site, kind, group, impkind, cfg.tier);
                 if sub & BATCH_BIT != 0 {
